@@ -7,7 +7,7 @@ C18 — Compression never changes what the client decodes.
 Statements only; helper lemmas live in Casket/Proofs/Gzip.lean.  `gzipRun` is the model of
 Gzip.ServeHTTP + ResponseFilterWriter + gzipResponseWriter around an arbitrary inner handler
 (`Inner`: the header fields it sets, its body, its sequence of WriteHeader / Write / Flush calls
-and its return status), `plainRun` the same handler without the middleware; `staticInner` is
+and its return: status and error), `plainRun` the same handler without the middleware; `staticInner` is
 the file server's sibling selection.  Codecs are abstract layers (see Model/Gzip.lean).  The
 model is tied to the Go code by the streams c18.wrap and c18.static, which execute both chains
 for every case; `GzipSpec.verdict` is the judge applied to the two observed responses.
@@ -138,6 +138,35 @@ theorem C18_model_verdict_ok (blocks : List Block) (path ae : Bytes) (i : Inner)
     unfold verdict observe
     simp only [rewrite, bne_self_eq_false, Bool.false_eq_true, if_false, hne, hun, Bool.not_true, offersGzip, hae]
     rfl
+
+/-- The handler's return value never reaches the client: whatever status (where the header is
+committed by the handler's own calls -- see `finish` for the error page of an untouched response)
+and whatever error the next handler returns after its calls, both executions are what they are
+for a handler that returns no error.  In particular the deferred cleanup terminates the gzip
+stream on every return path. -/
+theorem C18_handler_error_irrelevant (blocks : List Block) (path ae : Bytes) (i : Inner) (e : Bool) :
+    gzipRun blocks path ae { i with err := e } = gzipRun blocks path ae i ∧
+    plainRun { i with err := e } = plainRun i :=
+  ⟨rfl, rfl⟩
+
+/-- A gzip stream the middleware started is always terminated: for every return (status, error)
+of the next handler the body on the wire is the plain body or the COMPLETE gzip layer over it --
+never a stream cut short (`Term.cut`), which no client could decode to the plain body. -/
+theorem C18_stream_complete_whatever_returned (blocks : List Block) (path ae : Bytes) (i : Inner)
+    (ret : Nat) (e : Bool) :
+    (gzipRun blocks path ae { i with ret := ret, err := e }).body = (plainRun { i with ret := ret, err := e }).body ∨
+    (gzipRun blocks path ae { i with ret := ret, err := e }).body =
+      .layer .gzip (plainRun { i with ret := ret, err := e }).body := by
+  rcases C18_decoded_equals_identity blocks path ae { i with ret := ret, err := e } with h | ⟨_, h, _⟩
+  · exact Or.inl (by rw [h])
+  · exact Or.inr h
+
+/-- `cleanup` closes an open writer whatever was returned (the seeded regression "close only if
+err == nil" is exactly a cleanup for which this fails at `err = true`). -/
+theorem C18_cleanup_closes (ret : Nat) (e : Bool) :
+    cleanup ret e .opened = .closed ∧ cleanup ret e .absent = .absent ∧
+    ∀ t, streamBody (cleanup ret e .opened) t = .layer .gzip t :=
+  ⟨rfl, rfl, fun _ => rfl⟩
 
 /-- Static files: whichever subset of precompressed siblings exists and whatever the client
 lists, the file server's response decodes to the file, and the middleware in front of it keeps
@@ -274,6 +303,21 @@ example :
         ops := [.flush, .write, .write], ret := 0 } =
       { status := 200, hdr := { ce := gz, cl := none, varyAE := true, etag := .weak },
         body := .layer .gzip (.raw [1, 2, 3]), blen := none } := by decide
+
+/-- test: the handler writes its body and returns (0, error), as fastcgi does after stderr
+output: compressed, complete, the same as without the error -/
+example :
+    gzipRun [{ exts := [[46, 116, 120, 116]], nots := [], minLen := 0 }] txt gz
+      { hdr := { ce := [], cl := none, varyAE := false, etag := .none }, body := .raw [1, 2, 3], plen := 3,
+        ops := [.hdr 200, .write], ret := 0, err := true } =
+      { status := 200, hdr := { ce := gz, cl := none, varyAE := true, etag := .none },
+        body := .layer .gzip (.raw [1, 2, 3]), blen := none } := by decide
+
+/-- test: the judge rejects a gzip stream that was not terminated -/
+example :
+    let p : Obs := { status := 200, ce := [], cl := .absent, varyAE := false, etag := .none, body := .raw [1] }
+    let g : Obs := { status := 200, ce := gz, cl := .absent, varyAE := true, etag := .none, body := .cut .gzip (.raw [1]) }
+    verdict gz g p ≠ "ok" := by decide
 
 /-- non-vacuity of `C18_no_double_encoding`'s hypothesis: zstd, an unknown coding and upper-case
 GZIP all count as "already encoded"; absent and identity do not -/
